@@ -235,7 +235,19 @@ func init() {
 		tp := x.val(s, mi.X)
 		tt := tp.T.Underlying().(*types.Pointer).Elem()
 		if !strings.HasSuffix(typeKey(tt), "awserr.Error") {
-			panic(unsupported("errors.As target " + typeKey(tt)))
+			// any other target type: whether the chain holds such an error is an
+			// uninterpreted predicate of the error value; a nil error never matches;
+			// on a match the target receives an arbitrary value of its type
+			fn := "err_as_" + sanitize(typeKey(tt))
+			x.declareFun(fn, []string{sInt, sInt}, sBool)
+			e := a[0]
+			hit := and(not(eq(e.F[0].S, "0")), app(fn, e.F[0].S, e.F[1].S))
+			old := s.load(tp)
+			nv := x.freshValue("as_target", tt)
+			s.assumeRanges(nv)
+			merged := mergeTwo(hit, nv, old)
+			s.store(tp, merged)
+			return bv(hit), true
 		}
 		x.declAwsFuns()
 		e := a[0]
@@ -397,4 +409,15 @@ func init() {
 		return Value{}, true
 	}
 	modelModKeys["sort.Strings"] = func(x *Exec, s *State) []string { return []string{"E:string"} }
+}
+
+
+// mergeTwo: ite(c, a, b) leaf by leaf.
+func mergeTwo(c string, a, b Value) Value {
+	fa, fb := flatten(a), flatten(b)
+	out := make([]string, len(fa))
+	for i := range fa {
+		out[i] = ite(c, fa[i], fb[i])
+	}
+	return build(a.T, &out)
 }
